@@ -188,7 +188,10 @@ def get_solution(
             reverse = rxn.reverse_id
             rxn_index.append(forward)
             fluxes[i] = var_primals[forward] - var_primals[reverse]
-            reduced[i] = var_duals[forward] - var_duals[reverse]
+            # The forward and reverse columns are negatives of each other, so
+            # their duals are d and -d: the net flux's reduced cost is half
+            # the difference.
+            reduced[i] = (var_duals[forward] - var_duals[reverse]) / 2
         met_index = []
         constr_duals = model.solver.shadow_prices
         for i, met in enumerate(metabolites):
